@@ -121,10 +121,13 @@ namespace pika::threads::detail {
                 std::int64_t tag = tmp.tag();
                 if (state != tmp.state()) ++tag;
 
-                if (state_ex == thread_restart_state::unknown) state_ex = tmp.state_ex();
+                // keep the current state_ex unless a new one was requested; this has to be
+                // re-evaluated for every attempt, as state_ex may have been changed concurrently
+                thread_restart_state const new_state_ex =
+                    state_ex == thread_restart_state::unknown ? tmp.state_ex() : state_ex;
 
                 if (PIKA_LIKELY(current_state_.compare_exchange_strong(
-                        tmp, thread_state(state, state_ex, tag), exchange_order)))
+                        tmp, thread_state(state, new_state_ex, tag), exchange_order)))
                 {
                     return prev_state;
                 }
